@@ -131,26 +131,31 @@ theorem single_prod {l : List Prod} {i : Nat} {p : Prod} (hl : l.length = 1) (h 
   | [y], j+1 => simp at h
   | _ :: _ :: _, _ => simp at hl
 
-/-- single producer, failure-free: exact order -/
+/-- single producer: exact order in *every* run (also aborted ones) -/
 def Order1 (input : List Nat) (s : St) : Prop :=
-  s.prods.length = 1 → s.got ++ s.pipe ++ s.prods.flatMap (fun p => p.held.toList) ++ s.prods.flatMap (·.src) ++ s.shared = input
+  s.prods.length = 1 →
+    s.got ++ s.pipe ++ s.prods.flatMap (fun p => p.held.toList) ++ s.dropped ++ s.prods.flatMap (·.src) ++ s.shared = input ∧
+    (s.dropped ≠ [] → ∀ (j : Nat) (p : Prod), s.prods[j]? = some p → p.exited = true)
 
 theorem step_order1 {c : Cfg} {input : List Nat} {s s' : St} {a : Act}
-    (hi : Inv c s) (hc : s.envStopped = false → Clean c input s) (ho : s.envStopped = false → Order1 input s)
-    (hs : step c s a = some s') : s'.envStopped = false → Order1 input s' := by
-  intro he hlen
+    (hi : Inv c s) (ho : Order1 input s) (hs : step c s a = some s') : Order1 input s' := by
+  intro hlen
   obtain ⟨h1, h2, h3, h4, h5⟩ := hi
   cases a <;> simp only [step] at hs <;> (repeat' (split at hs)) <;> cases hs
-  all_goals (first | (simp at he; done) | skip)
   all_goals (simp only [List.length_set] at hlen)
-  all_goals (have ho := ho he hlen; obtain ⟨c1, c2, c3, c4, c5⟩ := hc he)
+  all_goals (obtain ⟨o1, o2⟩ := ho hlen)
   all_goals (try (simp_all; done))
+  all_goals (try (refine ⟨by simp_all, o2⟩))
   all_goals (
     have hx := ‹s.prods[_]? = some _›
-    have k4 := fun hw => c4 hw _ _ hx
+    have hd : (‹Prod›).exited = false → s.dropped = [] := by
+      intro hne
+      cases hdd : s.dropped with
+      | nil => rfl
+      | cons y ys => have := o2 (by simp [hdd]) _ _ hx; simp_all
     obtain ⟨hl, hi0⟩ := single_prod hlen hx
     simp_all
-    try grind [St.wdone2])
+    try grind)
 
 /-- the multiset the consumer has to receive: all private sources and the shared one -/
 def inputOf (privs : List (List Nat)) (shared : List Nat) : List Nat := privs.flatten ++ shared
@@ -184,16 +189,16 @@ structure Good (c : Cfg) (input : List Nat) (s : St) : Prop where
   inv : Inv c s
   conserved : Conserved input s
   clean : s.envStopped = false → Clean c input s
-  order1 : s.envStopped = false → Order1 input s
+  order1 : Order1 input s
 
 theorem good_init (c : Cfg) (privs : List (List Nat)) (shared : List Nat) (k1 k2 : Nat) :
     Good c (inputOf privs shared) (init privs shared k1 k2) :=
   ⟨inv_init c privs shared k1 k2, conserved_init privs shared k1 k2, fun _ => clean_init c privs shared k1 k2,
-   fun _ => order1_init privs shared k1 k2⟩
+   order1_init privs shared k1 k2⟩
 
 theorem step_good {c : Cfg} {input : List Nat} {s s' : St} {a : Act}
     (h : Good c input s) (hs : step c s a = some s') : Good c input s' :=
-  ⟨step_inv h.inv hs, step_conserved h.conserved hs, step_clean h.inv h.clean hs, step_order1 h.inv h.clean h.order1 hs⟩
+  ⟨step_inv h.inv hs, step_conserved h.conserved hs, step_clean h.inv h.clean hs, step_order1 h.inv h.order1 hs⟩
 
 theorem run_good {c : Cfg} {input : List Nat} (as : List Act) : ∀ {s s' : St},
     Good c input s → run c s as = some s' → Good c input s' := by
